@@ -96,13 +96,18 @@ def run(tier, seed):
     opts = {}
     graph = X.extract(opts)
     plan = CC.Plan()
-    specs = CC.run_models(run, graph, specs_for(tier, seed, graph), plan, opts)
+    specs = CC.run_models(run, graph, [dict(sp, properties=M.PROPERTIES + ["AbsSafety"]) for sp in specs_for(tier, seed, graph)], plan, opts)
     run.info["tlc_models"] = [{k: v for k, v in sp.items() if k != "requests"} for sp in specs]
     # vacuity: the actions the invariants talk about must have been taken in the exhaustive safety-layer run
     never = [a for a in ("Request", "Freeze", "StepRead", "StepTest", "Return") if run.coverage_actions.get(a, (0, 0))[1] == 0]
     if never:
         raise RuntimeError(f"vacuous model run: actions never taken: {never}")
     liveness(run, graph)
+    from .. import apalache
+    ind = apalache.check_inductive()
+    run.info["apalache_inductive_invariant"] = {k: v for k, v in ind.items() if k != "tail"}
+    if not (ind["base"] and ind["step"] and ind["negative_control_rejected"]):
+        raise RuntimeError("Apalache: IndInv of CacheSafety is not established: " + str(ind))
     importance_jobs(plan, opts, graph, seed)
     CC.execute(run, "C03", graph, plan, opts, seed, max_traces=500 if tier == "quick" else 4000)
     drivers(run, plan, opts, seed, tier)
